@@ -67,18 +67,15 @@ Proof.
   unfold wf_props. rewrite Forall_forall. intros p Hp. rewrite forallb_forall in H. exact (H p Hp).
 Qed.
 
-Lemma flat_free_b_sound g : flat_free_b g = true -> flat_free g.
-Proof.
-  unfold flat_free_b, flat_free. intros H ks Hks p Hp. rewrite forallb_forall in H. specialize (H ks Hks).
-  rewrite forallb_forall in H. specialize (H p Hp). destruct (is_flat (p_ty p)); [discriminate|reflexivity].
-Qed.
+Lemma no_flatten_cycle_b_sound g : no_flatten_cycle_b g = true -> client_env g <> None.
+Proof. unfold no_flatten_cycle_b. destruct (client_env g); [discriminate|discriminate]. Qed.
 
 Theorem valid_package_b_sound P : valid_package_b to_snake P = true -> valid_package to_snake P.
 Proof.
   unfold valid_package_b, valid_package. intro H.
   apply andb_true_iff in H as [H H6]. apply andb_true_iff in H as [H H5]. apply andb_true_iff in H as [H H4].
   apply andb_true_iff in H as [H H3]. apply andb_true_iff in H as [H1 H2].
-  split; [|split; [|split; [|split; [exact H4|split; [apply wf_env_b_sound; exact H5|apply flat_free_b_sound; exact H6]]]]].
+  split; [|split; [|split; [|split; [exact H4|split; [apply wf_env_b_sound; exact H5|apply no_flatten_cycle_b_sound; exact H6]]]]].
   - rewrite Forall_forall. intros d Hd. apply wf_decl_b_sound. rewrite forallb_forall in H1. apply H1. exact Hd.
   - apply nodup_b_sound. exact H2.
   - rewrite Forall_forall. intros d Hd Hq. rewrite forallb_forall in H3. specialize (H3 d Hd). unfold list_ok_b in H3.
